@@ -6,6 +6,7 @@ export CARGO_NET_OFFLINE=true
 mkdir -p build evidence replays
 ( cd coq && coq_makefile -f _CoqProject -o Makefile >/dev/null && timeout 3000 make -j16 )
 ./ocaml/build.sh
+./ocaml/build_lin.sh
 ( cd harness && cargo build --release --offline 2>&1 | tail -3 )
 ( cd smoke && cargo build --release --offline 2>&1 | tail -1 )
 echo setup done
